@@ -20,9 +20,10 @@
    - C02_indexed_eq_scan_abstract, C02_never_fewer_abstract, C02_indexed_file_order_bytes: over
      abstract chunks the file-order indexed read is the scan sequence; in every order it is a
      permutation of it; at byte level (loader hypothesis of Iter.v) the log times agree.
-   C02_full_statement (end-to-end over the writer model W) is kept as a definition, not proved.
-   Known finding: without the hypothesis ids_consistent the full statement is false
-   (x3_channel_redefinition_refutes). *)
+   C02_full_statement below was the first attempt at the end-to-end statement over the writer model W; it is too
+   strong (refuted in properties/C02_full.v: C02_full_statement_refuted) and is kept only so that the refutation and the
+   corrected, proved statement (C02_full_partial : C02_full_corrected_statement) can refer to it.
+   Without the hypothesis ids_consistent even the corrected statement is false (x3_channel_redefinition_refutes). *)
 From Coq Require Import List NArith ZArith Bool Permutation Sorted.
 From Coq.Strings Require Import Byte.
 From RecordUpdate Require Import RecordSet.
@@ -31,7 +32,7 @@ Import ListNotations RecordSetNotations.
 Open Scope N_scope.
 
 (* ====================================================================== *)
-(* the complete end-to-end statement (NOT proved) *)
+(* first attempt at the end-to-end statement (too strong: see properties/C02_full.v) *)
 
 (* the decompressors of the reader invert the compressor the writer was given *)
 Definition codec_ok (ds : doracle) (dall : dalloracle) (comp : bytes) (compress : nat -> bytes -> bytes) : Prop :=
